@@ -64,6 +64,13 @@ def rand_value(rng, dtype, length, proto_ok):
         while len(out) < length:
             out += rng.choice(pool)
         return out[:length]
+    if dtype == "Ip6Addr" and k < 0.75 and length == 16:
+        # forms an address library may treat specially: v4-mapped, v4-compatible, NAT64, loopback, 6to4
+        v4 = rng.choice([bytes([10, 0, 0, 1]), bytes([192, 0, 2, 1]), bytes([255, 255, 255, 255]), bytes(4), rng.randbytes(4)])
+        return rng.choice([bytes(10) + b"\xff\xff" + v4, bytes(12) + v4, bytes.fromhex("0064ff9b") + bytes(8) + v4,
+                           bytes(15) + b"\x01", bytes.fromhex("2002") + v4 + bytes(10), bytes.fromhex("20010db8") + bytes(8) + b"\xff\xff" + v4[:2]])
+    if dtype == "Ip4Addr" and k < 0.65 and length == 4:
+        return rng.choice([bytes([127, 0, 0, 1]), bytes([10, 0, 0, 1]), bytes([224, 0, 0, 1]), bytes([169, 254, 1, 1]), bytes([192, 168, 1, 1])])
     if dtype == "Float64" and k < 0.8 and length == 8:
         return rng.choice([bytes.fromhex(h) for h in ("7ff0000000000000", "fff0000000000000", "7ff8000000000001", "3ff0000000000000",
                                                        "8000000000000000", "0000000000000001", "7fefffffffffffff", "400921fb54442d18", "3fb999999999999a")])
@@ -130,7 +137,10 @@ class Exporter:
     def v9_field(self):
         rng = self.rng
         k = rng.random()
-        if k < 0.75:
+        if k < 0.25:
+            # every data type equally often, however few elements have it
+            num = rng.choice(self.t.v9_by_dtype[rng.choice(sorted(self.t.v9_by_dtype))])
+        elif k < 0.75:
             num = rng.choice(self.t.v9_known)
         elif k < 0.9:
             num = rng.choice([43, 51, 59, 65, 97, 101, 105, 150, 283, 284, 300, 40000, 65535, 0])
@@ -156,6 +166,18 @@ class Exporter:
             rng.shuffle(extra)
             fs = extra[: rng.randrange(1, len(extra) + 1)] + fs[: rng.randrange(0, 3)]
             rng.shuffle(fs)
+        old = self.v9_t.get(tid)
+        if old and len(set(old)) > 1 and rng.random() < 0.35:
+            # a redefinition that keeps the number of fields and the record length: the same fields
+            # in another order, or other elements of the same widths
+            fs = list(old)
+            while fs == old:
+                rng.shuffle(fs)
+            if rng.random() < 0.5:
+                swap = {4: [1, 2, 8, 12, 10], 2: [7, 11, 14], 1: [4, 5, 6], 16: [27, 28], 6: [56, 80]}
+                fs = [(rng.choice(swap[l]) if l in swap else n, l) for n, l in fs]
+                if fs == old:
+                    rng.shuffle(fs)
         return tid, fs
 
     def v9_template_record(self, tid, fs, count=None):
@@ -196,6 +218,12 @@ class Exporter:
             k = rng.random()
             have_t = list(self.v9_t)
             have_o = list(self.v9_o)
+            if not self.conformant and rng.random() < 0.1:
+                # a flowset header whose length field is below its own 4 bytes: the parser takes an
+                # empty body and moves on; the packet still occupies those 4 bytes
+                fid = rng.choice([0, 1] + have_t + have_o)
+                out.append((be(fid, 2) + be(rng.choice([0, 1, 2, 3]), 2), ("S", fid)))
+                continue
             if k < 0.3 or not (have_t or have_o):
                 m = rng.choice([1, 1, 2, 3])
                 body = b""
@@ -224,8 +252,9 @@ class Exporter:
             elif k < 0.5 and have_o:
                 tid = rng.choice(have_o)
                 scope, opts = self.v9_o[tid]
-                body = b"".join(rng.randbytes(l) for _, l in scope) + b"".join(rng.randbytes(l) for _, l in opts)
-                out.append((self.flowset(tid, body), ("OD", tid)))
+                nrec = rng.choice([1, 1, 1, 2, 3])
+                body = b"".join(b"".join(rng.randbytes(l) for _, l in scope) + b"".join(rng.randbytes(l) for _, l in opts) for _ in range(nrec))
+                out.append((self.flowset(tid, body), ("OD", tid, nrec)))
             elif have_t:
                 tid = rng.choice(have_t)
                 if self.conformant and tid in self.v9_o:
@@ -252,12 +281,14 @@ class Exporter:
         rng = self.rng
         k = rng.random()
         ent = None
-        if k < 0.7:
+        if k < 0.25:
+            num = rng.choice(self.t.ipfix_by_dtype[rng.choice(sorted(self.t.ipfix_by_dtype))])
+        elif k < 0.7:
             num = rng.choice(self.t.ipfix_known)
         elif k < 0.8:
             num = rng.choice([0, 105, 106, 491, 492, 503, 504, 1000, 32767])
         elif k < 0.93:
-            num = rng.randrange(32768)
+            num = rng.choice([0, 1, 32767, rng.randrange(32768), rng.randrange(32768)])
             ent = rng.choice([0, 1, 9, 29305, 0xFFFFFFFF])
         else:
             num = rng.randrange(32768)
@@ -287,6 +318,11 @@ class Exporter:
             rng.shuffle(fs)
         if self.conformant and all(l == 0 for _, l, _ in fs):
             fs.append((1, 4, None))
+        old = self.ix_t.get(tid)
+        if old and len(set(old)) > 1 and rng.random() < 0.35:
+            fs = list(old)
+            while fs == old:
+                rng.shuffle(fs)
         return tid, fs
 
     def ix_value(self, f):
@@ -351,6 +387,12 @@ class Exporter:
         rng = self.rng
         nsets = nsets if nsets is not None else rng.choice([1, 1, 2, 3, 4, 6])
         sets = self.ix_sets(nsets)
+        if rng.random() < 0.05:
+            # RFC 7011 8.1 template withdrawal: a template record with field count 0; id 2 in set 2
+            # (id 3 in set 3) withdraws all (options) templates.  Last in the message.
+            sid = rng.choice([2, 2, 3])
+            tid = rng.choice([sid, sid] + list(self.ix_t) + list(self.ix_o) + [256])
+            sets.append((self.ix_set(sid, be(tid, 2) + be(0, 2)), ("W", sid, tid)))
         body = b"".join(s for s, _ in sets)
         hdr = be(10, 2) + be(16 + len(body) if length is None else length, 2) + be(rng.getrandbits(32), 4) \
             + be(rng.getrandbits(32), 4) + be(rng.getrandbits(32), 4)
